@@ -1,1 +1,692 @@
-import GeoModel
+/-
+  Property C05 — totality of Parse on the AST model (GeoModel.Json):
+  `parseTop` always returns an object or an error; its fuel is never exhausted; the only
+  source of `.unmodelled` is the (explicitly unmodelled) string-valued Circle radius;
+  every object it produces carries a complete table of extra ordinates, so that the writer
+  (GeoModel.Write) never indexes out of range (never returns `none`).
+-/
+import GeoProofs.ParseLemmas
+
+namespace Geo
+
+/-! ### fuel -/
+
+/-- the fuel of `parseTop` is never exhausted: any two fuels above the nesting depth give
+    the same result -/
+theorem parse_fuel_sufficient (o : POpts) (v : JVal) (n m : Nat) (hn : v.depth < n) (hm : v.depth < m) :
+    parse o n v = parse o m v :=
+  parse_fuel_indep o n m v hn hm
+
+theorem parseTop_total (o : POpts) (v : JVal) :
+    (∃ x, parseTop o v = .ok x) ∨ (∃ e, parseTop o v = .error e) := by
+  cases h : parseTop o v with
+  | ok x => exact .inl ⟨x, rfl⟩
+  | error e => exact .inr ⟨e, rfl⟩
+
+/-- `parseTop` is `parse` with any sufficient fuel -/
+theorem parseTop_eq_parse (o : POpts) (v : JVal) (n : Nat) (hn : v.depth < n) :
+    parseTop o v = parse o n v :=
+  parse_fuel_indep o _ n v (Nat.lt_succ_self _) hn
+
+/-! ### `.unmodelled` -/
+
+/-- somewhere in the document there is a Feature over a Point whose `properties.type` is the
+    string "Circle" and whose `properties.radius` is a JSON string. (`properties` is looked up
+    as the model does it: the FIRST foreign member of that name, `type`/`radius` likewise the
+    first member of the properties object; the Feature's own reserved members are the LAST of
+    their name.) -/
+inductive HasStringRadius : JVal → Prop
+  | here (ms : List (String × String × JVal)) (r : String) (props : JVal) (r1 r2 d : String)
+      (hty : (scanKeys ms).type = some (.str r "Feature"))
+      (hprops : propsOf (scanKeys ms) = some props)
+      (hptype : props.get "type" = some (.str r1 "Circle"))
+      (hradius : props.get "radius" = some (.str r2 d)) :
+      HasStringRadius (.obj ms)
+  | geometry (ms : List (String × String × JVal)) (r : String) (g : JVal)
+      (hty : (scanKeys ms).type = some (.str r "Feature"))
+      (hg : (scanKeys ms).geometry = some g) (h : HasStringRadius g) :
+      HasStringRadius (.obj ms)
+  | geometries (ms : List (String × String × JVal)) (r : String) (items : List JVal) (x : JVal)
+      (hty : (scanKeys ms).type = some (.str r "GeometryCollection"))
+      (hg : (scanKeys ms).geometries = some (.arr items)) (hx : x ∈ items) (h : HasStringRadius x) :
+      HasStringRadius (.obj ms)
+  | features (ms : List (String × String × JVal)) (r : String) (items : List JVal) (x : JVal)
+      (hty : (scanKeys ms).type = some (.str r "FeatureCollection"))
+      (hg : (scanKeys ms).features = some (.arr items)) (hx : x ∈ items) (h : HasStringRadius x) :
+      HasStringRadius (.obj ms)
+
+theorem featureObj_unmodelled {o : POpts} {k : Keys} {base : Obj}
+    (h : featureObj o k base = .error .unmodelled) :
+    ∃ props r1 r2 d, propsOf k = some props ∧ props.get "type" = some (.str r1 "Circle") ∧
+      props.get "radius" = some (.str r2 d) := by
+  unfold featureObj at h
+  split at h
+  · split at h
+    · rename_i hc
+      simp only [Bool.and_eq_true] at hc
+      have hct := hc.2
+      split at h
+      · rename_i hr
+        unfold isCircleType at hct
+        unfold radiusTexts at hr
+        cases hp : propsOf k with
+        | none =>
+          rw [hp] at hct
+          simp at hct
+        | some props =>
+          rw [hp] at hct hr
+          simp only [Option.bind_some] at hct hr
+          refine ⟨props, ?_⟩
+          split at hct
+          · rename_i r1 hty
+            split at hr
+            · split at hr <;> cases hr
+            · cases hr
+            · rename_i r2 d hrad
+              exact ⟨r1, r2, d, rfl, hty, hrad⟩
+            · cases hr
+          · cases hct
+      · split at h
+        · cases h
+        · split at h <;> cases h
+    · cases h
+  · cases h
+
+theorem parse_unmodelled (o : POpts) : ∀ (n : Nat) (v : JVal), v.depth < n →
+    parse o n v = .error .unmodelled → HasStringRadius v
+  | 0, _, hn, _ => absurd hn (Nat.not_lt_zero _)
+  | n+1, v, hn, h => by
+    cases v with
+    | obj ms =>
+      rw [parse_succ_obj] at h
+      have hd := scanKeys_depth ms
+      rw [depth_obj] at hn
+      split at h
+      · cases h
+      · rename_i r ty hty
+        revert h
+        refine parseTyped_elim (motive := fun ty res =>
+          (scanKeys ms).type = some (.str r ty) → res = .error .unmodelled → HasStringRadius (.obj ms))
+          o (scanKeys ms) (parse o n) (parseList o n) ty ?_ ?_ ?_ ?_ ?_ ?_ ?_ ?_ ?_ ?_ hty
+        · exact fun _ h => absurd h pointCase_not_unmodelled
+        · exact fun _ h => absurd h lineCase_not_unmodelled
+        · exact fun _ h => absurd h polyCase_not_unmodelled
+        · exact fun _ h => absurd h multiPointCase_not_unmodelled
+        · exact fun _ h => absurd h multiLineCase_not_unmodelled
+        · exact fun _ h => absurd h multiPolyCase_not_unmodelled
+        · intro hty h
+          unfold geomCollCase at h
+          split at h
+          · rename_i e he
+            cases h
+            rcases reqArray_error he with h | h <;> cases h
+          · rename_i items hreq
+            split at h
+            · rename_i e he
+              cases h
+              obtain ⟨x, hx, hpx⟩ := parseList_error o n items _ he
+              have hg := (reqArray_ok hreq).1
+              have h1 := hd.geometries _ hg
+              rw [depth_arr] at h1
+              have h2 := depth_le_depthL items x hx
+              exact .geometries ms r items x hty hg hx (parse_unmodelled o n x (by omega) hpx)
+            · cases h
+          · cases h
+        · intro hty h
+          unfold featCollCase at h
+          split at h
+          · rename_i e he
+            cases h
+            rcases reqArray_error he with h | h <;> cases h
+          · rename_i items hreq
+            split at h
+            · rename_i e he
+              cases h
+              obtain ⟨x, hx, hpx⟩ := parseList_error o n items _ he
+              have hg := (reqArray_ok hreq).1
+              have h1 := hd.features _ hg
+              rw [depth_arr] at h1
+              have h2 := depth_le_depthL items x hx
+              exact .features ms r items x hty hg hx (parse_unmodelled o n x (by omega) hpx)
+            · cases h
+          · cases h
+        · intro hty h
+          unfold featureCase at h
+          split at h
+          · cases h
+          · rename_i g hg
+            split at h
+            · rename_i e he
+              cases h
+              have h1 := hd.geometry _ hg
+              exact .geometry ms r g hty hg (parse_unmodelled o n g (by omega) he)
+            · obtain ⟨props, r1, r2, d, hp, ht, hr⟩ := featureObj_unmodelled h
+              exact .here ms r props r1 r2 d hty hp ht hr
+        · intro _ _ h; cases h
+      · cases h
+    | null => rw [parse_succ_nonobj o n _ (by intro ms h; cases h)] at h; cases h
+    | tru => rw [parse_succ_nonobj o n _ (by intro ms h; cases h)] at h; cases h
+    | fls => rw [parse_succ_nonobj o n _ (by intro ms h; cases h)] at h; cases h
+    | num => rw [parse_succ_nonobj o n _ (by intro ms h; cases h)] at h; cases h
+    | str => rw [parse_succ_nonobj o n _ (by intro ms h; cases h)] at h; cases h
+    | arr => rw [parse_succ_nonobj o n _ (by intro ms h; cases h)] at h; cases h
+
+/-- the only source of `.unmodelled` is the string-valued circle radius -/
+theorem parseTop_unmodelled_only_string_radius (o : POpts) (v : JVal)
+    (h : parseTop o v = .error .unmodelled) : HasStringRadius v :=
+  parse_unmodelled o (v.depth + 1) v (Nat.lt_succ_self _) h
+
+
+/-! ### the writer never indexes out of range -/
+
+/-- the kinds whose "coordinates" value exists (`writeCoords`): children of Multi* collections -/
+def isGeomLeaf : Obj → Bool
+  | .point _ _ => true
+  | .spoint _ => true
+  | .lineString _ _ _ => true
+  | .polygon _ _ _ => true
+  | .rectO _ _ _ => true
+  | _ => false
+
+mutual
+/-- every object carries a complete table of extra ordinates: `dims` values for each of its
+    positions (`writePos` reads `values[idx*dims+i]` for `i < dims`), and the children of a
+    Multi* collection are plain geometries -/
+def ExtraOK : Obj → Prop
+  | .point _ ex => extraLenOK ex 1
+  | .spoint _ => True
+  | .lineString _ poss ex => extraLenOK ex poss.length
+  | .polygon _ rings ex => extraLenOK ex (totalLen rings)
+  | .rectO _ _ _ => True
+  | .coll kind cs _ _ =>
+    ((kind = .geometryCollection ∨ kind = .featureCollection) ∨ cs.all isGeomLeaf = true) ∧ ExtraOKL cs
+  | .feature b _ => ExtraOK b
+  | .circle _ _ => True
+def ExtraOKL : List Obj → Prop
+  | [] => True
+  | c :: cs => ExtraOK c ∧ ExtraOKL cs
+end
+
+theorem optMapM_isSome {α β : Type} (f : α → Option β) :
+    ∀ (l : List α), (∀ x ∈ l, (f x).isSome) → (l.mapM f).isSome
+  | [], _ => by simp
+  | x :: xs, h => by
+    have hx := h x List.mem_cons_self
+    have hxs := optMapM_isSome f xs (fun z hz => h z (List.mem_cons_of_mem _ hz))
+    rw [List.mapM_cons]
+    cases hfx : f x with
+    | none => rw [hfx] at hx; cases hx
+    | some y =>
+      cases hm : xs.mapM f with
+      | none => rw [hm] at hxs; cases hxs
+      | some ys => rfl
+
+/-- position `idx` of a table for more than `idx` positions can be written -/
+theorem writePos_isSome (pos : Pos) (ex : Option Extra) (idx : Nat)
+    (h : ∀ e, ex = some e → (idx + 1) * e.dims ≤ e.values.length) : (writePos pos ex idx).isSome := by
+  unfold writePos
+  cases ex with
+  | none => rfl
+  | some e =>
+    have he := h e rfl
+    simp only
+    have : ((List.range e.dims).mapM (fun i => e.values[idx * e.dims + i]?)).isSome := by
+      apply optMapM_isSome
+      intro i hi
+      rw [List.mem_range] at hi
+      rw [Nat.succ_mul] at he
+      have : idx * e.dims + i < e.values.length := by omega
+      simp [this]
+    cases hm : (List.range e.dims).mapM (fun i => e.values[idx * e.dims + i]?) with
+    | none => rw [hm] at this; cases this
+    | some ys => rfl
+
+theorem writeSeries_go_isSome (ex : Option Extra) : ∀ (ps : List Pos) (i : Nat),
+    (∀ e, ex = some e → (i + ps.length) * e.dims ≤ e.values.length) →
+      (writeSeries.go ex ps i).isSome
+  | [], i, _ => by rw [writeSeries.go]; rfl
+  | p :: ps, i, h => by
+    rw [writeSeries.go]
+    have h1 : (writePos p ex i).isSome := by
+      apply writePos_isSome
+      intro e he
+      have := h e he
+      rw [List.length_cons] at this
+      refine Nat.le_trans (Nat.mul_le_mul_right _ ?_) this
+      omega
+    have h2 : (writeSeries.go ex ps (i+1)).isSome := by
+      apply writeSeries_go_isSome
+      intro e he
+      have := h e he
+      rw [List.length_cons] at this
+      have e1 : i + 1 + ps.length = i + (ps.length + 1) := by omega
+      rw [e1]; exact this
+    cases hp : writePos p ex i with
+    | none => rw [hp] at h1; cases h1
+    | some t =>
+      cases hg : writeSeries.go ex ps (i+1) with
+      | none => rw [hg] at h2; cases h2
+      | some r => rfl
+
+theorem writeSeries_some (ps : List Pos) (ex : Option Extra) (i : Nat)
+    (h : ∀ e, ex = some e → (i + ps.length) * e.dims ≤ e.values.length) :
+    ∃ t, writeSeries ps ex i = some (t, i + ps.length) := by
+  have := writeSeries_go_isSome ex ps i h
+  unfold writeSeries
+  cases hg : writeSeries.go ex ps i with
+  | none => rw [hg] at this; cases this
+  | some parts => exact ⟨_, rfl⟩
+
+theorem writeRings_go_isSome (ex : Option Extra) : ∀ (rings : List (List Pos)) (i : Nat),
+    (∀ e, ex = some e → (i + totalLen rings) * e.dims ≤ e.values.length) →
+      (writeRings.go ex rings i).isSome
+  | [], i, _ => by rw [writeRings.go]; rfl
+  | r :: rs, i, h => by
+    rw [writeRings.go]
+    obtain ⟨t, ht⟩ := writeSeries_some r ex i (by
+      intro e he
+      have := h e he
+      refine Nat.le_trans (Nat.mul_le_mul_right _ ?_) this
+      simp [totalLen])
+    have h2 : (writeRings.go ex rs (i + r.length)).isSome := by
+      apply writeRings_go_isSome
+      intro e he
+      have := h e he
+      have e1 : i + r.length + totalLen rs = i + totalLen (r :: rs) := by
+        simp [totalLen]; omega
+      rw [e1]; exact this
+    cases hg : writeRings.go ex rs (i + r.length) with
+    | none => rw [hg] at h2; cases h2
+    | some r => simp [ht, hg]
+
+theorem writeRings_isSome (rings : List (List Pos)) (ex : Option Extra)
+    (h : extraLenOK ex (totalLen rings)) : (writeRings rings ex).isSome := by
+  have := writeRings_go_isSome ex rings 0 (by
+    intro e he
+    subst he
+    simp only [extraLenOK] at h
+    rw [h, Nat.zero_add, Nat.mul_comm]
+    exact Nat.le_refl _)
+  unfold writeRings
+  cases hg : writeRings.go ex rings 0 with
+  | none => rw [hg] at this; cases this
+  | some parts => rfl
+
+theorem writeCoords_isSome : ∀ (x : Obj), isGeomLeaf x = true → ExtraOK x → (writeCoords x).isSome
+  | .point pos ex, _, h => by
+    rw [writeCoords]
+    apply writePos_isSome
+    intro e he
+    subst he
+    simp only [ExtraOK, extraLenOK] at h
+    rw [h]; simp
+  | .spoint pos, _, _ => by rw [writeCoords]; rfl
+  | .lineString _ poss ex, _, h => by
+    rw [writeCoords]
+    obtain ⟨t, ht⟩ := writeSeries_some poss ex 0 (by
+      intro e he
+      subst he
+      simp only [ExtraOK, extraLenOK] at h
+      rw [h, Nat.zero_add, Nat.mul_comm]
+      exact Nat.le_refl _)
+    rw [ht]; rfl
+  | .polygon poly rings ex, _, h => by
+    rw [writeCoords]
+    split
+    · rfl
+    · exact writeRings_isSome rings ex (by simpa only [ExtraOK] using h)
+  | .rectO _ lo hi, _, _ => by
+    rw [writeCoords]
+    exact writeRings_isSome _ none (by simp [extraLenOK])
+  | .coll _ _ _ _, hl, _ => by cases hl
+  | .feature _ _, hl, _ => by cases hl
+  | .circle _ _, hl, _ => by cases hl
+
+theorem writeAllCoords_isSome : ∀ (cs : List Obj), cs.all isGeomLeaf = true → ExtraOKL cs →
+    (writeAllCoords cs).isSome
+  | [], _, _ => by rw [writeAllCoords]; rfl
+  | c :: cs, hl, h => by
+    rw [writeAllCoords]
+    simp only [List.all_cons, Bool.and_eq_true] at hl
+    simp only [ExtraOKL] at h
+    have h1 := writeCoords_isSome c hl.1 h.1
+    have h2 := writeAllCoords_isSome cs hl.2 h.2
+    cases hc : writeCoords c with
+    | none => rw [hc] at h1; cases h1
+    | some t =>
+      cases hr : writeAllCoords cs with
+      | none => rw [hr] at h2; cases h2
+      | some r => rfl
+
+mutual
+theorem write_isSome : ∀ (x : Obj), ExtraOK x → (write x).isSome
+  | .point pos ex, h => by
+    have := writeCoords_isSome (.point pos ex) rfl h
+    rw [writeCoords] at this
+    rw [write]
+    cases hc : writePos pos ex 0 with
+    | none => rw [hc] at this; cases this
+    | some t => rfl
+  | .spoint pos, _ => by rw [write]; rfl
+  | .lineString l poss ex, h => by
+    have := writeCoords_isSome (.lineString l poss ex) rfl h
+    rw [writeCoords] at this
+    rw [write]
+    cases hc : writeSeries poss ex 0 with
+    | none => rw [hc] at this; cases this
+    | some t => rfl
+  | .polygon poly rings ex, h => by
+    have := writeCoords_isSome (.polygon poly rings ex) rfl h
+    rw [writeCoords] at this
+    rw [write]
+    cases hp : poly.empty with
+    | true => rfl
+    | false =>
+      rw [hp] at this
+      simp only [Bool.false_eq_true, if_false] at this ⊢
+      cases hc : writeRings rings ex with
+      | none => rw [hc] at this; cases this
+      | some t => rfl
+  | .rectO b lo hi, h => by
+    have := writeCoords_isSome (.rectO b lo hi) rfl h
+    rw [writeCoords] at this
+    rw [write]
+    cases hc : writeRings [rectRing lo hi] none with
+    | none => rw [hc] at this; cases this
+    | some t => rfl
+  | .coll kind cs ex idx, h => by
+    simp only [ExtraOK] at h
+    have hall := writeAll_isSome cs h.2
+    cases kind with
+    | multiPoint =>
+      have hc := writeAllCoords_isSome cs (by simpa using h.1) h.2
+      rw [write]
+      · cases hp : writeAllCoords cs with
+        | none => rw [hp] at hc; cases hc
+        | some p => rfl
+      all_goals (intro hk; cases hk)
+    | multiLineString =>
+      have hc := writeAllCoords_isSome cs (by simpa using h.1) h.2
+      rw [write]
+      · cases hp : writeAllCoords cs with
+        | none => rw [hp] at hc; cases hc
+        | some p => rfl
+      all_goals (intro hk; cases hk)
+    | multiPolygon =>
+      have hc := writeAllCoords_isSome cs (by simpa using h.1) h.2
+      rw [write]
+      · cases hp : writeAllCoords cs with
+        | none => rw [hp] at hc; cases hc
+        | some p => rfl
+      all_goals (intro hk; cases hk)
+    | geometryCollection =>
+      rw [write]
+      cases hp : writeAll cs with
+      | none => rw [hp] at hall; cases hall
+      | some p => rfl
+    | featureCollection =>
+      rw [write]
+      cases hp : writeAll cs with
+      | none => rw [hp] at hall; cases hall
+      | some p => rfl
+  | .feature b ex, h => by
+    rw [write]
+    simp only [ExtraOK] at h
+    have := write_isSome b h
+    cases hb : write b with
+    | none => rw [hb] at this; cases this
+    | some t => rfl
+  | .circle c r, _ => by rw [write]; rfl
+theorem writeAll_isSome : ∀ (cs : List Obj), ExtraOKL cs → (writeAll cs).isSome
+  | [], _ => by rw [writeAll]; rfl
+  | c :: cs, h => by
+    rw [writeAll]
+    simp only [ExtraOKL] at h
+    have h1 := write_isSome c h.1
+    have h2 := writeAll_isSome cs h.2
+    cases hc : write c with
+    | none => rw [hc] at h1; cases h1
+    | some t =>
+      cases hr : writeAll cs with
+      | none => rw [hr] at h2; cases h2
+      | some r => rfl
+end
+
+theorem write_some_of_extraOK (x : Obj) (h : ExtraOK x) : (write x).isSome := write_isSome x h
+
+theorem extraOKL_iff : ∀ (cs : List Obj), ExtraOKL cs ↔ ∀ c ∈ cs, ExtraOK c
+  | [] => by simp [ExtraOKL]
+  | c :: cs => by simp [ExtraOKL, extraOKL_iff cs]
+
+theorem pointCase_extraOK {o : POpts} {k : Keys} {x : Obj} (h : pointCase o k = .ok x) : ExtraOK x := by
+  unfold pointCase at h
+  split at h
+  · cases h
+  · split at h
+    · cases h
+    · split at h
+      · cases h
+      · rename_i pos ex hp
+        simp only at h
+        split at h <;> split at h
+        · cases h
+        · cases h; simp [ExtraOK]
+        · cases h
+        · cases h
+          simp only [ExtraOK]
+          exact withMembers_extraLenOK (parsePointCoords_extra hp)
+
+theorem lineCase_extraOK {o : POpts} {k : Keys} {x : Obj} (h : lineCase o k = .ok x) : ExtraOK x := by
+  unfold lineCase at h
+  split at h
+  · cases h
+  · split at h
+    · cases h
+    · rename_i ps ex hp
+      split at h
+      · cases h
+      · simp only at h
+        split at h
+        · cases h
+        · cases h
+          simp only [ExtraOK]
+          exact withMembers_extraLenOK (parseLineCoords_extra hp)
+
+theorem polyCase_extraOK {o : POpts} {k : Keys} {x : Obj} (h : polyCase o k = .ok x) : ExtraOK x := by
+  unfold polyCase at h
+  split at h
+  · cases h
+  · split at h
+    · cases h
+    · rename_i rings ex hp
+      split at h
+      · cases h
+      · simp only at h
+        split at h
+        · cases h
+        · cases h
+          rcases polyObj_cases o rings (withMembers ex k) with hc | ⟨_, _, _, _, _, _, _, _, _, hc⟩
+          · rw [hc]
+            simp only [ExtraOK]
+            exact withMembers_extraLenOK (parsePolyCoords_extra hp)
+          · rw [hc]; simp [ExtraOK]
+
+theorem lineChild_extraOK {o : POpts} {v : JVal} {x : Obj} (h : lineChild o v = .ok x) :
+    ExtraOK x ∧ isGeomLeaf x = true := by
+  rw [lineChild_eq] at h
+  split at h
+  · cases h
+  · rename_i ps ex hp
+    split at h
+    · cases h
+    · cases h
+      exact ⟨by simp only [ExtraOK]; exact parseLineCoords_extra hp, rfl⟩
+
+theorem polyChild_extraOK {o : POpts} {v : JVal} {x : Obj} (h : polyChild o v = .ok x) :
+    ExtraOK x ∧ isGeomLeaf x = true := by
+  rw [polyChild_eq] at h
+  split at h
+  · cases h
+  · rename_i rings ex hp
+    split at h
+    · cases h
+    · cases h
+      exact ⟨by simp only [ExtraOK]; exact parsePolyCoords_extra hp, rfl⟩
+
+theorem multiPointCase_extraOK {o : POpts} {k : Keys} {x : Obj} (h : multiPointCase o k = .ok x) :
+    ExtraOK x := by
+  unfold multiPointCase at h
+  split at h
+  · cases h
+  · split at h
+    · cases h
+    · rename_i cs hcs
+      simp only at h
+      split at h
+      · cases h
+      · cases h
+        have hf := mapM_except_ok _ _ _ hcs
+        have : ∀ c ∈ cs, extraLenOK c.2 1 :=
+          hf.right (P := fun c => extraLenOK c.2 1) (fun x y _ hxy => parsePointCoords_extra (p := y.1) (ex := y.2) hxy)
+        simp only [mkColl, ExtraOK]
+        refine ⟨.inr ?_, ?_⟩
+        · simp [isGeomLeaf]
+        · rw [extraOKL_iff]
+          intro c hc
+          rw [List.mem_map] at hc
+          obtain ⟨y, hy, rfl⟩ := hc
+          simp only [ExtraOK]
+          exact this y hy
+
+theorem multiLineCase_extraOK {o : POpts} {k : Keys} {x : Obj} (h : multiLineCase o k = .ok x) :
+    ExtraOK x := by
+  unfold multiLineCase at h
+  split at h
+  · cases h
+  · split at h
+    · cases h
+    · rename_i cs hcs
+      simp only at h
+      split at h
+      · cases h
+      · cases h
+        have hf := mapM_except_ok _ _ _ hcs
+        have := hf.right (P := fun c => ExtraOK c ∧ isGeomLeaf c = true) (fun x y _ hxy => lineChild_extraOK hxy)
+        simp only [mkColl, ExtraOK]
+        refine ⟨.inr ?_, ?_⟩
+        · rw [List.all_eq_true]; exact fun c hc => (this c hc).2
+        · rw [extraOKL_iff]; exact fun c hc => (this c hc).1
+
+theorem multiPolyCase_extraOK {o : POpts} {k : Keys} {x : Obj} (h : multiPolyCase o k = .ok x) :
+    ExtraOK x := by
+  unfold multiPolyCase at h
+  split at h
+  · cases h
+  · split at h
+    · cases h
+    · rename_i cs hcs
+      simp only at h
+      split at h
+      · cases h
+      · cases h
+        have hf := mapM_except_ok _ _ _ hcs
+        have := hf.right (P := fun c => ExtraOK c ∧ isGeomLeaf c = true) (fun x y _ hxy => polyChild_extraOK hxy)
+        simp only [mkColl, ExtraOK]
+        refine ⟨.inr ?_, ?_⟩
+        · rw [List.all_eq_true]; exact fun c hc => (this c hc).2
+        · rw [extraOKL_iff]; exact fun c hc => (this c hc).1
+
+theorem featureObj_extraOK {o : POpts} {k : Keys} {base x : Obj} (hb : ExtraOK base)
+    (h : featureObj o k base = .ok x) : ExtraOK x := by
+  unfold featureObj at h
+  split at h
+  · split at h
+    · split at h
+      · cases h
+      · split at h
+        · cases h; simp [ExtraOK]
+        · split at h
+          · cases h; simp [ExtraOK]
+          · cases h
+    · cases h; simpa only [ExtraOK] using hb
+  · cases h; simpa only [ExtraOK] using hb
+
+/-- every object produced by Parse carries a complete table of extra ordinates -/
+theorem parse_extraOK (o : POpts) : ∀ (n : Nat) (v : JVal) (x : Obj), parse o n v = .ok x → ExtraOK x
+  | 0, v, x, h => by rw [parse_zero] at h; cases h
+  | n+1, v, x, h => by
+    cases v with
+    | obj ms =>
+      rw [parse_succ_obj] at h
+      split at h
+      · cases h
+      · rename_i r ty hty
+        revert h
+        refine parseTyped_elim (motive := fun _ res => res = .ok x → ExtraOK x)
+          o (scanKeys ms) (parse o n) (parseList o n) ty ?_ ?_ ?_ ?_ ?_ ?_ ?_ ?_ ?_ ?_
+        · exact pointCase_extraOK
+        · exact lineCase_extraOK
+        · exact polyCase_extraOK
+        · exact multiPointCase_extraOK
+        · exact multiLineCase_extraOK
+        · exact multiPolyCase_extraOK
+        · intro h
+          unfold geomCollCase at h
+          split at h
+          · cases h
+          · rename_i items hreq
+            split at h
+            · cases h
+            · rename_i cs hcs
+              cases h
+              have := (parseList_ok o n items cs hcs).right (P := ExtraOK)
+                (fun x y _ hxy => parse_extraOK o n x y hxy)
+              simp only [mkColl, ExtraOK]
+              exact ⟨by simp, (extraOKL_iff cs).2 this⟩
+          · cases h
+        · intro h
+          unfold featCollCase at h
+          split at h
+          · cases h
+          · rename_i items hreq
+            split at h
+            · cases h
+            · rename_i cs hcs
+              cases h
+              have := (parseList_ok o n items cs hcs).right (P := ExtraOK)
+                (fun x y _ hxy => parse_extraOK o n x y hxy)
+              simp only [mkColl, ExtraOK]
+              exact ⟨by simp, (extraOKL_iff cs).2 this⟩
+          · cases h
+        · intro h
+          unfold featureCase at h
+          split at h
+          · cases h
+          · rename_i g hg
+            split at h
+            · cases h
+            · rename_i base hbase
+              exact featureObj_extraOK (parse_extraOK o n g base hbase) h
+        · intro _ h; cases h
+      · cases h
+    | null => rw [parse_succ_nonobj o n _ (by intro ms h; cases h)] at h; cases h
+    | tru => rw [parse_succ_nonobj o n _ (by intro ms h; cases h)] at h; cases h
+    | fls => rw [parse_succ_nonobj o n _ (by intro ms h; cases h)] at h; cases h
+    | num => rw [parse_succ_nonobj o n _ (by intro ms h; cases h)] at h; cases h
+    | str => rw [parse_succ_nonobj o n _ (by intro ms h; cases h)] at h; cases h
+    | arr => rw [parse_succ_nonobj o n _ (by intro ms h; cases h)] at h; cases h
+
+/-- Parse followed by AppendJSON never panics -/
+theorem parse_then_write_no_panic (o : POpts) (v : JVal) (x : Obj) (h : parseTop o v = .ok x) :
+    (write x).isSome :=
+  write_some_of_extraOK x (parse_extraOK o _ v x h)
+
+
+end Geo
+
+#print axioms Geo.parse_fuel_sufficient
+#print axioms Geo.parseTop_total
+#print axioms Geo.parseTop_unmodelled_only_string_radius
+#print axioms Geo.parse_extraOK
+#print axioms Geo.write_some_of_extraOK
+#print axioms Geo.parse_then_write_no_panic
